@@ -13,6 +13,8 @@ CONSTANTS
   MaxTx = 1
   SupplyCap = 10
   DataVals = {7, 8}
+  ConsArgs <- ConsNone
+  ConArgs <- ConsNone
   InitLedgers <- InitFG
   FailOdds = 4
   EndOdds = 3
